@@ -161,7 +161,7 @@ Section Evaluate.
       rewrite map_map. simpl. apply map_id. }
     set (evs := fst (cut_escape evs_all)).
     assert (Hevs : forall x, In x (valid st) -> ~ In x (map fst evs)).
-    { intros x Hx C. apply cut_escape_incl in C. rewrite Hall in C. unfold te in C.
+    { intros x Hx C. pose proof (cut_escape_incl evs_all x C) as C2. clear C. assert (C : In x te) by (rewrite <- Hall; exact C2). unfold te in C.
       apply filter_In in C. destruct C as [_ C]. apply negb_true_iff, mem_false in C. contradiction. }
     assert (Hold : forall x, In x (valid st) -> last_outcome (evlog st ++ evs) x = Some Value).
     { intros x Hx. rewrite last_outcome_app, (last_outcome_notin evs x (Hevs x Hx)). apply I, Hx. }
@@ -355,3 +355,488 @@ Section Loop.
     apply optimise_result_arch in E. fold r in E. subst l. apply recorded_parts. auto.
   Qed.
 End Loop.
+
+(* ---------------------------------------------------------------------------------------- *)
+(* 4. progress: metric faults never make the run raise or end empty                          *)
+(* ---------------------------------------------------------------------------------------- *)
+Lemma filter_all {A} (f : A -> bool) l : (forall x, In x l -> f x = true) -> filter f l = l.
+Proof.
+  induction l as [|x r IH]; simpl; intros H; [reflexivity|].
+  rewrite (H x (or_introl eq_refl)), IH; [reflexivity|]. intros y Hy. apply H. right. exact Hy.
+Qed.
+
+Lemma NoDup_filter {A} (f : A -> bool) l : NoDup l -> NoDup (filter f l).
+Proof.
+  induction 1 as [|x r Hx ND IH]; simpl; [constructor|].
+  destruct (f x); [constructor; [|exact IH]|exact IH].
+  intros C. apply filter_In in C. tauto.
+Qed.
+
+Lemma last_outcome_outcomes obj l : forall i k x,
+  NoDup l -> nth_error l k = Some x -> last_outcome (outcomes obj i l) x = Some (obj (i + k) x).
+Proof.
+  induction l as [|y r IH]; intros i k x ND H; [destruct k; discriminate|].
+  inversion ND as [|? ? Hy NDr]; subst. simpl. destruct k as [|k]; simpl in H.
+  - inversion H; subst. rewrite last_outcome_notin by (rewrite outcomes_fst; exact Hy).
+    rewrite Nat.eqb_refl, Nat.add_0_r. reflexivity.
+  - rewrite (IH (S i) k x NDr H). f_equal. f_equal. lia.
+Qed.
+
+Definition mono (st st' : lstate) : Prop :=
+  keeper_ok st' = true -> keeper_ok st = true /\ (arch st <> [] -> arch st' <> []).
+
+Lemma mono_refl st : mono st st.
+Proof. intros H. auto. Qed.
+
+Lemma mono_trans a b c : mono a b -> mono b c -> mono a c.
+Proof. intros H1 H2 K. destruct (H2 K) as [Kb Ab]. destruct (H1 Kb) as [Ka Aa]. auto. Qed.
+
+Lemma mono_with_ev st es : mono st (with_ev st es).
+Proof. intros K. simpl in *. auto. Qed.
+
+Lemma is_nil_false {A} (l : list A) : is_nil l = false <-> l <> [].
+Proof. destruct l; simpl; split; congruence. Qed.
+
+Lemma update_mono st p lab u :
+  let st' := snd (update_population st p lab u) in
+  keeper_ok st' = true -> keeper_ok st = true /\ (arch st ++ p <> [] -> arch st' <> []).
+Proof.
+  unfold update_population.
+  assert (G : forall k, k = keeper_ok st && (is_nil (arch st ++ p) || negb (is_nil (picks (arch st ++ p) (u_arch u)))) ->
+              k = true -> keeper_ok st = true /\ (arch st ++ p <> [] -> picks (arch st ++ p) (u_arch u) <> [])).
+  { intros k -> H. apply andb_true_iff in H. destruct H as [K H]. split; [exact K|].
+    intros NE. apply is_nil_false in NE. rewrite NE in H. simpl in H.
+    apply negb_true_iff, is_nil_false in H. exact H. }
+  destruct (fst (match u_io u with Some io => save_current_results true io | None => (Ok tt, false) end)).
+  - destruct (u_cb u); simpl; apply G; reflexivity.
+  - simpl. apply G; reflexivity.
+Qed.
+
+Lemma update_mono' st p lab u : mono st (snd (update_population st p lab u)).
+Proof.
+  intros K. destruct (update_mono st p lab u K) as [K0 A]. split; [exact K0|].
+  intros NE. apply A. destruct (arch st); [congruence|discriminate].
+Qed.
+
+Lemma update_ok st p lab u : upd_calm u = true -> fst (update_population st p lab u) = Ok tt.
+Proof.
+  unfold upd_calm, update_population. intros H.
+  destruct (u_cb u); [discriminate|].
+  destruct (u_io u) as [[[] d]|]; reflexivity.
+Qed.
+
+(* the part of update_population that does not depend on how it ends *)
+Lemma update_gens st p lab u :
+  gens (snd (update_population st p lab u)) = gens st ++ [(lab, p)] /\
+  ev (snd (update_population st p lab u)) = ev st.
+Proof.
+  unfold update_population.
+  destruct (fst (match u_io u with Some io => save_current_results true io | None => (Ok tt, false) end));
+    [destruct (u_cb u)|]; simpl; auto.
+Qed.
+
+Section Progress.
+  Variable obj : objective.
+  Hypothesis NoEsc : metric_faults_only obj.
+
+  Lemma evaluate_ok st b : nodup_b (b_inds b) = true -> exists out, fst (evaluate obj st b) = Ok out.
+  Proof.
+    intros ND. apply nodup_b_NoDup in ND. unfold evaluate.
+    set (te := filter (fun x => negb (mem x (valid st))) (b_inds b)).
+    set (evs_all := if b_surrogate b then map (fun x => (x, Value)) te else outcomes obj (idx st) te).
+    assert (E : snd (cut_escape evs_all) = None).
+    { apply cut_escape_no_escape. intros x e C. unfold evs_all in C. destruct (b_surrogate b).
+      - apply in_map_iff in C. destruct C as [y [C _]]. discriminate.
+      - clear -C NoEsc. revert C. generalize (idx st). induction te as [|y r IH]; simpl; intros i C; [exact C|].
+        destruct C as [C|C]; [inversion C; eapply NoEsc; eauto|eapply IH, C]. }
+    rewrite E.
+    assert (N : nodup_b (filter (succeeded (fst (cut_escape evs_all))) te) = true).
+    { apply nodup_b_NoDup. apply NoDup_filter. unfold te. apply NoDup_filter. exact ND. }
+    rewrite N. eexists. reflexivity.
+  Qed.
+
+  Lemma run_batches_ok bs : forall es acc,
+    forallb (fun b => nodup_b (b_inds b)) bs = true -> exists out, fst (run_batches obj es bs acc) = Ok out.
+  Proof.
+    induction bs as [|b r IH]; intros es acc H; simpl; [eexists; reflexivity|].
+    apply andb_true_iff in H. destruct H as [Hb Hr].
+    destruct (evaluate_ok es b Hb) as [out E].
+    destruct (evaluate obj es b) as [[o|e] es']; simpl in E; [|discriminate]. apply IH, Hr.
+  Qed.
+
+  Lemma run_step_mono in_loop st s : mono st (snd (run_step obj in_loop st s)).
+  Proof.
+    unfold run_step. destruct (run_batches obj (ev st) (e_batches s) []) as [[off|e] es]; simpl.
+    - destruct (e_res s) as [ix| |e].
+      + destruct (e_skip_if_empty s && is_nil (picks (off ++ pop st ++ arch st) ix)); [apply mono_with_ev|].
+        pose proof (update_mono' (with_ev st es) (picks (off ++ pop st ++ arch st) ix) (e_label s) (e_upd s)) as M.
+        destruct (update_population (with_ev st es) _ (e_label s) (e_upd s)) as [[u|e] st2];
+          (eapply mono_trans; [apply mono_with_ev|exact M]).
+      + destruct in_loop; apply mono_with_ev.
+      + apply mono_with_ev.
+    - apply mono_with_ev.
+  Qed.
+
+  Lemma run_step_ok in_loop st s :
+    step_calm s = true -> (in_loop = true \/ not_attempts s = true) ->
+    exists r, fst (run_step obj in_loop st s) = Ok r.
+  Proof.
+    unfold step_calm, run_step, not_attempts. intros H L.
+    apply andb_true_iff in H. destruct H as [H Hu]. apply andb_true_iff in H. destruct H as [Hb Hr].
+    destruct (run_batches_ok (e_batches s) (ev st) [] Hb) as [off E].
+    destruct (run_batches obj (ev st) (e_batches s) []) as [[o|e] es]; simpl in E; [|discriminate].
+    destruct (e_res s) as [ix| |e]; [| |discriminate].
+    - destruct (e_skip_if_empty s && is_nil (picks (o ++ pop st ++ arch st) ix)); [eexists; reflexivity|].
+      pose proof (update_ok (with_ev st es) (picks (o ++ pop st ++ arch st) ix) (e_label s) (e_upd s) Hu) as U.
+      destruct (update_population (with_ev st es) _ (e_label s) (e_upd s)) as [[u|e] st2]; simpl in U; [|discriminate].
+      eexists. reflexivity.
+    - destruct in_loop; [eexists; reflexivity|]. destruct L as [L|L]; discriminate.
+  Qed.
+
+  Lemma run_loop_mono steps : forall st, mono st (snd (run_loop obj st steps)).
+  Proof.
+    induction steps as [|s r IH]; intros st; simpl; [apply mono_refl|].
+    pose proof (run_step_mono true st s) as M.
+    destruct (run_step obj true st s) as [[[|]|e] st']; simpl in *; [|exact M|exact M].
+    eapply mono_trans; [exact M|apply IH].
+  Qed.
+
+  Lemma run_loop_ok steps : forall st,
+    forallb step_calm steps = true -> exists r, fst (run_loop obj st steps) = Ok r.
+  Proof.
+    induction steps as [|s r IH]; intros st H; simpl; [eexists; reflexivity|].
+    apply andb_true_iff in H. destruct H as [Hs Hr].
+    destruct (run_step_ok true st s Hs (or_introl eq_refl)) as [k E].
+    destruct (run_step obj true st s) as [[[|]|e] st']; simpl in E; [apply IH, Hr|eexists; reflexivity|discriminate].
+  Qed.
+
+  Lemma initial_out_nonempty s :
+    nodup_b (b_inds (s_initial s)) = true -> initial_evaluable obj s ->
+    exists out es, evaluate obj es0 (s_initial s) = (Ok out, es) /\ out <> [].
+  Proof.
+    intros ND [Sur [k [x [Hk Hv]]]]. pose proof ND as ND'. apply nodup_b_NoDup in ND'.
+    unfold evaluate. change (valid es0) with (@nil nat). change (idx es0) with 0. rewrite Sur.
+    assert (T : filter (fun x : nat => negb (mem x [])) (b_inds (s_initial s)) = b_inds (s_initial s))
+      by (apply filter_all; reflexivity).
+    rewrite T.
+    assert (S : filter (fun x : nat => mem x []) (b_inds (s_initial s)) = []).
+    { clear. induction (b_inds (s_initial s)); simpl; auto. }
+    rewrite S.
+    set (evs_all := outcomes obj 0 (b_inds (s_initial s))).
+    assert (E : snd (cut_escape evs_all) = None).
+    { apply cut_escape_no_escape. intros y e C. unfold evs_all in C. clear -C NoEsc. revert C.
+      generalize 0. induction (b_inds (s_initial s)) as [|z r IH]; simpl; intros i C; [exact C|].
+      destruct C as [C|C]; [inversion C; eapply NoEsc; eauto|eapply IH, C]. }
+    rewrite E. rewrite (cut_escape_none _ E).
+    assert (N : nodup_b (filter (succeeded evs_all) (b_inds (s_initial s))) = true).
+    { apply nodup_b_NoDup, NoDup_filter, ND'. }
+    rewrite N. eexists. eexists. split; [reflexivity|].
+    assert (G : In x (filter (succeeded evs_all) (b_inds (s_initial s)))).
+    { apply filter_In. split; [eapply nth_error_In, Hk|]. unfold succeeded, evs_all.
+      rewrite (last_outcome_outcomes obj _ 0 k x ND' Hk). simpl. rewrite Hv. reflexivity. }
+    intros C. apply app_eq_nil in C. destruct C as [C _]. rewrite C in G. exact G.
+  Qed.
+
+  Lemma body_progress s :
+    calm s = true -> initial_evaluable obj s ->
+    (exists r, fst (body obj s) = Ok r) /\
+    (keeper_ok (snd (body obj s)) = true -> arch (snd (body obj s)) <> []).
+  Proof.
+    unfold calm. intros C IE.
+    apply andb_true_iff in C. destruct C as [C Cf]. apply andb_true_iff in C. destruct C as [C Cs].
+    apply andb_true_iff in C. destruct C as [C Cx]. apply andb_true_iff in C. destruct C as [Ci Cu].
+    destruct (initial_out_nonempty s Ci IE) as [out [es [E NE]]].
+    unfold body. rewrite E.
+    pose proof (update_ok (with_ev st0 es) out LInitial (s_init_upd s) Cu) as U.
+    pose proof (update_mono (with_ev st0 es) out LInitial (s_init_upd s)) as M.
+    destruct (update_population (with_ev st0 es) out LInitial (s_init_upd s)) as [[u|e] st1]; simpl in U; [|discriminate].
+    simpl in M.
+    assert (A1 : keeper_ok st1 = true -> arch st1 <> []).
+    { intros K. apply M; [exact K|]. simpl. exact NE. }
+    destruct (s_extend s) as [x|].
+    - apply andb_true_iff in Cx. destruct Cx as [Cx1 Cx2].
+      destruct (run_step_ok false st1 x Cx1 (or_intror Cx2)) as [k Ek].
+      pose proof (run_step_mono false st1 x) as M2.
+      destruct (run_step obj false st1 x) as [[k'|e] st2]; simpl in Ek; [|discriminate].
+      simpl in M2. split; [apply run_loop_ok, Cs|].
+      intros K. pose proof (run_loop_mono (s_steps s) st2) as M3.
+      destruct (M3 K) as [K2 A2]. destruct (M2 K2) as [K1 A1']. apply A2, A1', A1, K1.
+    - split; [apply run_loop_ok, Cs|].
+      intros K. pose proof (run_loop_mono (s_steps s) st1) as M3.
+      destruct (M3 K) as [K1 A2]. apply A2, A1, K1.
+  Qed.
+
+  (* T1: any pattern of metric failures, one evaluable initial graph, well-behaved other oracles:
+     the run returns normally, the result is not empty, nothing that failed is recorded *)
+  Theorem faults_tolerated cms s :
+    calm s = true -> initial_evaluable obj s ->
+    keeper_ok (snd (optimise cms obj s)) = true ->
+    exists l, fst (optimise cms obj s) = Ok l /\ l <> [] /\
+              forall x, In x (recorded (snd (optimise cms obj s))) \/ In x l ->
+                        last_outcome (evlog (ev (snd (optimise cms obj s)))) x = Some Value.
+  Proof.
+    intros C IE K. destruct (body_progress s C IE) as [[r Er] A].
+    assert (Cf : upd_calm (s_final_upd s) = true).
+    { unfold calm in C. apply andb_true_iff in C. tauto. }
+    assert (O : exists l, fst (optimise cms obj s) = Ok l /\ l <> []).
+    { revert K. unfold optimise. rewrite Er, with_ctx_ok.
+      pose proof (update_ok (snd (body obj s)) (arch (snd (body obj s))) LFinal (s_final_upd s) Cf) as U.
+      pose proof (update_mono (snd (body obj s)) (arch (snd (body obj s))) LFinal (s_final_upd s)) as M.
+      destruct (update_population (snd (body obj s)) (arch (snd (body obj s))) LFinal (s_final_upd s)) as [[u|e] st2];
+        simpl in U; [|discriminate].
+      simpl in *. intros K. destruct (M K) as [K1 A2]. eexists. split; [reflexivity|].
+      apply A2. pose proof (A K1) as NE. destruct (arch (snd (body obj s))); [congruence|discriminate]. }
+    destruct O as [l [El NE]]. exists l. split; [exact El|]. split; [exact NE|].
+    intros x Hx. apply (recorded_evaluated obj cms s x). destruct Hx as [Hx|Hx]; [left; exact Hx|].
+    right. exists l. auto.
+  Qed.
+End Progress.
+
+(* ---------------------------------------------------------------------------------------- *)
+(* 5. persistence faults are ignored                                                         *)
+(* ---------------------------------------------------------------------------------------- *)
+Lemma save_in_try_never_raises io : fst (save_current_results true io) = Ok tt.
+Proof. destruct io as [[] d]; reflexivity. Qed.
+
+(* sensitivity: with the directory creation before the try the failure propagates *)
+Lemma save_outside_try_raises d : fst (save_current_results false (MkFail, d)) = Raise EOs.
+Proof. reflexivity. Qed.
+
+Definition sim (a b : lstate) : Prop := forget_dumped a = forget_dumped b.
+
+Lemma sim_fields a b : sim a b ->
+  ev a = ev b /\ pop a = pop b /\ arch a = arch b /\ gens a = gens b /\ snaps a = snaps b /\ keeper_ok a = keeper_ok b.
+Proof. unfold sim, forget_dumped. intros H. inversion H. repeat split; assumption. Qed.
+
+Lemma sim_with_ev a b es : sim a b -> sim (with_ev a es) (with_ev b es).
+Proof.
+  intros H. destruct (sim_fields a b H) as [E1 [E2 [E3 [E4 [E5 E6]]]]].
+  unfold sim, forget_dumped, with_ev. simpl. congruence.
+Qed.
+
+Lemma update_sim a b p lab u io :
+  sim a b ->
+  fst (update_population a p lab u) = fst (update_population b p lab (set_dump_upd io u)) /\
+  sim (snd (update_population a p lab u)) (snd (update_population b p lab (set_dump_upd io u))).
+Proof.
+  intros H. destruct (sim_fields a b H) as [E1 [E2 [E3 [E4 [E5 E6]]]]].
+  unfold update_population. simpl u_arch. simpl u_cb. simpl u_io.
+  assert (S1 : forall o, fst (match o with Some i => save_current_results true i | None => (Ok tt, false) end) = Ok tt).
+  { intros [i|]; [apply save_in_try_never_raises|reflexivity]. }
+  rewrite (S1 (u_io u)), (S1 io).
+  rewrite E1, E2, E3, E4, E5, E6.
+  destruct (u_cb u); simpl; (split; [reflexivity|]); unfold sim, forget_dumped; simpl; reflexivity.
+Qed.
+
+Section IoIgnored.
+  Variable obj : objective.
+  Variable io : option (mk_ans * bool).
+
+  Lemma run_step_sim in_loop a b s :
+    sim a b ->
+    fst (run_step obj in_loop a s) = fst (run_step obj in_loop b (set_dump_step io s)) /\
+    sim (snd (run_step obj in_loop a s)) (snd (run_step obj in_loop b (set_dump_step io s))).
+  Proof.
+    intros H. destruct (sim_fields a b H) as [E1 [E2 [E3 _]]].
+    unfold run_step. simpl e_batches. simpl e_res. simpl e_label. simpl e_skip_if_empty. simpl e_upd.
+    rewrite <- E1, <- E2, <- E3.
+    destruct (run_batches obj (ev a) (e_batches s) []) as [[off|e] es].
+    - destruct (e_res s) as [ix| |e].
+      + destruct (e_skip_if_empty s && is_nil (picks (off ++ pop a ++ arch a) ix)).
+        * simpl. split; [reflexivity|apply sim_with_ev, H].
+        * pose proof (update_sim (with_ev a es) (with_ev b es) (picks (off ++ pop a ++ arch a) ix)
+                                 (e_label s) (e_upd s) io (sim_with_ev a b es H)) as [F S].
+          destruct (update_population (with_ev a es) _ (e_label s) (e_upd s)) as [[u1|e1] s1];
+          destruct (update_population (with_ev b es) _ (e_label s) (set_dump_upd io (e_upd s))) as [[u2|e2] s2];
+          simpl in *; try discriminate; split; try exact S; try reflexivity. inversion F; reflexivity.
+      + destruct in_loop; simpl; (split; [reflexivity|apply sim_with_ev, H]).
+      + simpl. split; [reflexivity|apply sim_with_ev, H].
+    - simpl. split; [reflexivity|apply sim_with_ev, H].
+  Qed.
+
+  Lemma run_loop_sim steps : forall a b,
+    sim a b ->
+    fst (run_loop obj a steps) = fst (run_loop obj b (map (set_dump_step io) steps)) /\
+    sim (snd (run_loop obj a steps)) (snd (run_loop obj b (map (set_dump_step io) steps))).
+  Proof.
+    induction steps as [|s r IH]; intros a b H; simpl; [split; [reflexivity|exact H]|].
+    destruct (run_step_sim true a b s H) as [F S].
+    destruct (run_step obj true a s) as [[[|]|e1] a'];
+    destruct (run_step obj true b (set_dump_step io s)) as [[[|]|e2] b']; simpl in *; try discriminate.
+    - apply IH, S.
+    - split; [reflexivity|exact S].
+    - split; [inversion F; reflexivity|exact S].
+  Qed.
+
+  Lemma body_sim s :
+    fst (body obj s) = fst (body obj (set_dumps io s)) /\
+    sim (snd (body obj s)) (snd (body obj (set_dumps io s))).
+  Proof.
+    unfold body. simpl s_initial. simpl s_init_upd. simpl s_extend. simpl s_steps.
+    destruct (evaluate obj es0 (s_initial s)) as [[out|e] es]; [|simpl; split; reflexivity].
+    destruct (update_sim (with_ev st0 es) (with_ev st0 es) out LInitial (s_init_upd s) io eq_refl) as [F S].
+    destruct (update_population (with_ev st0 es) out LInitial (s_init_upd s)) as [[u1|e1] s1];
+    destruct (update_population (with_ev st0 es) out LInitial (set_dump_upd io (s_init_upd s))) as [[u2|e2] s2];
+    simpl in F; try discriminate; [|simpl; split; [inversion F; reflexivity|exact S]].
+    simpl in S. destruct (s_extend s) as [x|]; simpl option_map.
+    - destruct (run_step_sim false s1 s2 x S) as [F2 S2].
+      destruct (run_step obj false s1 x) as [[k1|e1] a'];
+      destruct (run_step obj false s2 (set_dump_step io x)) as [[k2|e2] b']; simpl in *; try discriminate.
+      + apply run_loop_sim, S2.
+      + split; [inversion F2; reflexivity|exact S2].
+    - apply run_loop_sim, S.
+  Qed.
+
+  (* T2: whatever the file system answers (directory creation and dump, generation by
+     generation), the outcome, the result, the populations, the history and the archive
+     snapshots are those of the run without a history directory *)
+  Theorem io_faults_ignored cms s :
+    fst (optimise cms obj s) = fst (optimise cms obj (set_dumps io s)) /\
+    forget_dumped (snd (optimise cms obj s)) = forget_dumped (snd (optimise cms obj (set_dumps io s))).
+  Proof.
+    destruct (body_sim s) as [F S]. unfold optimise. rewrite <- F. simpl s_final_upd.
+    assert (G : forall a b, sim a b ->
+      fst (match update_population a (arch a) LFinal (s_final_upd s) with
+           | (Raise e, st2) => (Raise e, st2) | (Ok _, st2) => (Ok (arch st2), st2) end) =
+      fst (match update_population b (arch b) LFinal (set_dump_upd io (s_final_upd s)) with
+           | (Raise e, st2) => (Raise e, st2) | (Ok _, st2) => (Ok (arch st2), st2) end) /\
+      sim (snd (match update_population a (arch a) LFinal (s_final_upd s) with
+           | (Raise e, st2) => (Raise e, st2) | (Ok _, st2) => (Ok (arch st2), st2) end))
+          (snd (match update_population b (arch b) LFinal (set_dump_upd io (s_final_upd s)) with
+           | (Raise e, st2) => (Raise e, st2) | (Ok _, st2) => (Ok (arch st2), st2) end))).
+    { intros a b H. destruct (sim_fields a b H) as [_ [_ [E3 _]]]. rewrite <- E3.
+      destruct (update_sim a b (arch a) LFinal (s_final_upd s) io H) as [F2 S2].
+      destruct (update_population a (arch a) LFinal (s_final_upd s)) as [[u1|e1] s1];
+      destruct (update_population b (arch a) LFinal (set_dump_upd io (s_final_upd s))) as [[u2|e2] s2];
+      simpl in *; try discriminate.
+      - destruct (sim_fields s1 s2 S2) as [_ [_ [E _]]]. rewrite E. split; [reflexivity|exact S2].
+      - split; [inversion F2; reflexivity|exact S2]. }
+    destruct (with_ctx cms (fst (body obj s))); [apply G, S|apply G, S|].
+    simpl. split; [reflexivity|exact S].
+  Qed.
+End IoIgnored.
+
+(* ---------------------------------------------------------------------------------------- *)
+(* 6. how a run ends                                                                         *)
+(* ---------------------------------------------------------------------------------------- *)
+Section Ends.
+  Variable obj : objective.
+
+  Lemma run_loop_app pre : forall st st1 rest,
+    run_loop obj st pre = (Ok StopHeld, st1) ->
+    run_loop obj st (pre ++ rest) = run_loop obj st1 rest.
+  Proof.
+    induction pre as [|s r IH]; intros st st1 rest H; simpl in *.
+    - inversion H. reflexivity.
+    - destruct (run_step obj true st s) as [[[|]|e] st']; try discriminate. apply IH, H.
+  Qed.
+
+  (* T3: when reproduce signals the dedicated error (after whatever evaluator calls it made) the
+     loop ends at once; nothing is recorded for that iteration and later iterations do not run *)
+  Theorem too_few_offspring_stops st pre a rest st1 off es :
+    run_loop obj st pre = (Ok StopHeld, st1) ->
+    e_res a = EAttemptsErr ->
+    run_batches obj (ev st1) (e_batches a) [] = (Ok off, es) ->
+    run_loop obj st (pre ++ a :: rest) = (Ok TooFew, with_ev st1 es).
+  Proof.
+    intros H1 H2 H3. rewrite (run_loop_app pre st st1 _ H1). simpl. unfold run_step. rewrite H3, H2. reflexivity.
+  Qed.
+
+  Theorem evolve_error_raised st pre a rest st1 off es e :
+    run_loop obj st pre = (Ok StopHeld, st1) ->
+    e_res a = ERaise e ->
+    run_batches obj (ev st1) (e_batches a) [] = (Ok off, es) ->
+    run_loop obj st (pre ++ a :: rest) = (Raise e, with_ev st1 es).
+  Proof.
+    intros H1 H2 H3. rewrite (run_loop_app pre st st1 _ H1). simpl. unfold run_step. rewrite H3, H2. reflexivity.
+  Qed.
+
+  (* a run whose with-block completed (stop criterion or too few offspring) records the archive
+     as 'final_choices' and returns it: no raise, result within the best found so far *)
+  Theorem ended_returns_archive cms s reason :
+    fst (body obj s) = Ok reason -> upd_calm (s_final_upd s) = true ->
+    exists l, fst (optimise cms obj s) = Ok l /\ incl l (arch (snd (body obj s))) /\
+              gens (snd (optimise cms obj s)) = gens (snd (body obj s)) ++ [(LFinal, arch (snd (body obj s)))] /\
+              ev (snd (optimise cms obj s)) = ev (snd (body obj s)).
+  Proof.
+    intros E C. unfold optimise. rewrite E, with_ctx_ok.
+    pose proof (update_ok (snd (body obj s)) (arch (snd (body obj s))) LFinal (s_final_upd s) C) as U.
+    pose proof (update_gens (snd (body obj s)) (arch (snd (body obj s))) LFinal (s_final_upd s)) as [G V].
+    assert (A : arch (snd (update_population (snd (body obj s)) (arch (snd (body obj s))) LFinal (s_final_upd s))) =
+                picks (arch (snd (body obj s)) ++ arch (snd (body obj s))) (u_arch (s_final_upd s))).
+    { unfold update_population.
+      destruct (fst (match u_io (s_final_upd s) with Some io => save_current_results true io | None => (Ok tt, false) end));
+        [destruct (u_cb (s_final_upd s))|]; reflexivity. }
+    destruct (update_population (snd (body obj s)) (arch (snd (body obj s))) LFinal (s_final_upd s)) as [[u|e] st2];
+      simpl in *; [|discriminate].
+    eexists. split; [reflexivity|]. split; [|split; assumption].
+    rewrite A. eapply incl_tran; [apply picks_incl|]. apply incl_app; apply incl_refl.
+  Qed.
+
+  (* T4: an error raised inside the with-block reaches the caller when no __exit__ is truthy ... *)
+  Theorem errors_not_discarded cms s e :
+    all_falsy cms = true -> fst (body obj s) = Raise e ->
+    optimise cms obj s = (Raise e, snd (body obj s)).
+  Proof. intros F E. unfold optimise. rewrite E, (with_ctx_falsy cms e F). reflexivity. Qed.
+
+  (* ... equivalently a run returns normally only if its loop ended by itself *)
+  Theorem returns_only_if_ended cms s l :
+    all_falsy cms = true -> fst (optimise cms obj s) = Ok l ->
+    exists reason, fst (body obj s) = Ok reason.
+  Proof.
+    intros F O. destruct (fst (body obj s)) as [r|e] eqn:E; [exists r; reflexivity|].
+    rewrite (errors_not_discarded cms s e F E) in O. discriminate.
+  Qed.
+
+  (* sensitivity: one truthy __exit__ (the earlier EmptyProgressBar, or the base Timer after its
+     time limit) makes the run "finish" although its loop raised *)
+  Theorem truthy_exit_discards cms s e c :
+    In c cms -> exit_truthy c = true -> fst (body obj s) = Raise e -> upd_calm (s_final_upd s) = true ->
+    exists l, fst (optimise cms obj s) = Ok l.
+  Proof.
+    intros I T E C. unfold optimise. rewrite E, (with_ctx_swallow cms e c I T).
+    pose proof (update_ok (snd (body obj s)) (arch (snd (body obj s))) LFinal (s_final_upd s) C) as U.
+    destruct (update_population (snd (body obj s)) (arch (snd (body obj s))) LFinal (s_final_upd s)) as [[u|e2] st2];
+      simpl in *; [|discriminate].
+    eexists. reflexivity.
+  Qed.
+End Ends.
+
+(* ---------------------------------------------------------------------------------------- *)
+(* 7. the executable oracle decides the stated clauses                                        *)
+(* ---------------------------------------------------------------------------------------- *)
+Lemma exn_eqb_eq a b : exn_eqb a b = true <-> a = b.
+Proof.
+  destruct a, b; simpl; split; intros H; try discriminate; try reflexivity.
+  - apply Nat.eqb_eq in H. subst. reflexivity.
+  - inversion H. apply Nat.eqb_refl.
+Qed.
+
+Lemma holds_b_recorded c x :
+  holds_b c = true -> In x (observed_recorded c) -> In x (c_succeeded c).
+Proof.
+  unfold holds_b. intros H Hx. apply andb_true_iff in H. destruct H as [H _].
+  apply andb_true_iff in H. destruct H as [H _].
+  rewrite forallb_forall in H. apply mem_In, H, Hx.
+Qed.
+
+Lemma holds_b_error_propagated c e :
+  holds_b c = true -> c_fired c = Some e -> c_out c = ORaise e.
+Proof.
+  unfold holds_b. intros H F. rewrite F in H. apply andb_true_iff in H. destruct H as [_ H].
+  destruct (c_out c) as [|e']; [discriminate|]. apply exn_eqb_eq in H. subst. reflexivity.
+Qed.
+
+Lemma holds_b_returns_nonempty c :
+  holds_b c = true -> c_fired c = None -> c_initial_ok c = true -> c_out c = OOk /\ c_result c <> [].
+Proof.
+  unfold holds_b. intros H F I. rewrite F, I in H. apply andb_true_iff in H. destruct H as [_ H].
+  destruct (c_out c) as [|e].
+  - split; [reflexivity|]. simpl in H. apply negb_true_iff, is_nil_false in H. exact H.
+  - destruct e; discriminate.
+Qed.
+
+Lemma holds_b_no_attempts_error c : holds_b c = true -> c_fired c = None -> c_out c <> ORaise EAttempts.
+Proof.
+  unfold holds_b. intros H F C. rewrite F, C in H. apply andb_true_iff in H. destruct H as [_ H]. discriminate.
+Qed.
